@@ -1,23 +1,12 @@
-(* C19 — two call patterns that do emit frames on a closed connection (known findings F-C19-1, F-C19-2).
-   Witnesses evaluated on the model by vm_compute; the check replays them on the implementation. *)
+(* C19 — a call pattern that does emit a frame on a closed connection (known finding F-C19-2).
+   The witness is evaluated on the model by vm_compute; the check replays it on the implementation.
+   (F-C19-1, acknowledge_received_data after close, was repaired: see known_findings.txt.) *)
 From H2 Require Import Base.Prelude Model.FsmTypes Model.Types Model.ConnState Model.Connection Proofs.C19Proofs.
 
 Definition cfgc := mkconfig true true true true true false.
 Definition req : list hitem :=
   [([58;109;101;116;104;111;100],[71;69;84],false);([58;112;97;116;104],[47],false);
    ([58;115;99;104;101;109;101],[104;116;116;112;115],false);([58;97;117;116;104;111;114;105;116;121],[101;120;97;109;112;108;101;46;99;111;109],false)].
-Definition resp : list hitem := [([58;115;116;97;116;117;115],[50;48;48],false);([115;101;114;118;101;114],[120],false)].
-
-(* acknowledge_received_data bypasses the connection state machine *)
-Definition C19_full_for_acknowledge : Prop := forall n sid, quiet (api_acknowledge_received_data n sid).
-Theorem C19_acknowledge_after_close_refuted :
-  let c := run (conn_new cfgc)
-             [OInitiate; OSendHeaders 1 req 13 false None None None;
-              OReceive [(RSettings false [], 0); (RHeaders 1 false None (HDecoded resp), 5);
-                        (RData 1 16384 16384 false, 16384); (RData 1 16384 16384 false, 16384); (RData 1 16384 16384 false, 16384)];
-              OCloseConnection 0 None 0; ODrain] in
-  closed c /\ c_out (fst (step c (OAcknowledge 49152 1))) = [FWindowUpdate 0 49152; FWindowUpdate 1 49152].
-Proof. vm_compute. split; reflexivity. Qed.
 
 (* a naked CONTINUATION for a stream that was reset and forgotten is answered with RST_STREAM even when closed *)
 Theorem C19_continuation_after_close_refuted :
@@ -27,5 +16,4 @@ Theorem C19_continuation_after_close_refuted :
   closed c /\ c_out (fst (step c (OReceive [(RContinuation 1, 0)]))) = [FRstStream 1 5].
 Proof. vm_compute. split; reflexivity. Qed.
 
-Print Assumptions C19_acknowledge_after_close_refuted.
 Print Assumptions C19_continuation_after_close_refuted.
